@@ -706,16 +706,16 @@ theorem align_then_rotate_order_matters :
     column `max(x1, 0) + x` — "for each frame, the pixel values along the tether row reduced over the requested half
     window".  Specification side: Python slicing of the VISIBLE image and a plain sum; model side: the window
     arithmetic of `_kymo_from_image_stack`, `Roi.crop` on the raw page, `np.sum(axis=1)` as a fold over rows, swapped axes. -/
-theorem kymo_pixels_refine (s : Stack) (pages : List Page) (raw : Int → List (List Int)) (H W : Nat)
+theorem kymo_pixels_refine_reduce (s : Stack) (pages : List Page) (raw : Int → List (List Int)) (H W : Nat)
     (hraw : ∀ p, (raw p).length = H ∧ ∀ row ∈ raw p, row.length = W) (hr : s.roi.Within H W)
-    (x1 y1 x2 y2 w : Int) (k : Kymo)
-    (hk : s.toKymo pages raw (some (x1, y1, x2, y2)) w = some (.ok k)) :
+    (x1 y1 x2 y2 w : Int) (red : Reduce) (k : Kymo)
+    (hk : s.toKymo pages raw (some (x1, y1, x2, y2)) w red = some (.ok k)) :
     y1 = y2 ∧ 0 ≤ w ∧ 0 ≤ y1 - w ∧ y1 + w + 1 ≤ s.roi.height ∧ max x1 0 < min (x2 + 1) s.roi.width ∧
     k.image.length = (min (x2 + 1) s.roi.width - max x1 0).toNat ∧
     ∀ (x t : Nat) (p : Int), (x : Int) < min (x2 + 1) s.roi.width - max x1 0 → s.frames[t]? = some p →
-      (k.image[x]?.bind (·[t]?)) = some (((pySlice (s.roi.apply (raw p)) (y1 - w) (y1 + w + 1)).map
-          fun row => row.getD ((max x1 0).toNat + x) 0).sum) := by
-  obtain ⟨r, r', _, _, hy, hw, hlo, hhi, hc, himg⟩ := toKymo_inv s pages raw x1 y1 x2 y2 w k hk
+      (k.image[x]?.bind (·[t]?)) = some (foldCol red ((pySlice (s.roi.apply (raw p)) (y1 - w) (y1 + w + 1)).map
+          fun row => row.getD ((max x1 0).toNat + x) 0)) := by
+  obtain ⟨r, r', _, _, hy, hw, hlo, hhi, hc, himg⟩ := toKymo_inv s pages raw x1 y1 x2 y2 w red k hk
   subst hy
   have hW := hr
   obtain ⟨hx0, hx01, hx1, hy0, hy01, hy1'⟩ := hr
@@ -751,7 +751,7 @@ theorem kymo_pixels_refine (s : Stack) (pages : List Page) (raw : Int → List (
     by_cases hw0 : w > 0
     · unfold kymoLine
       rw [if_pos hw0]
-      rw [sumRows_getD _ (min (x2 + 1) s.roi.width - max x1 0).toNat x ?_ (by omega)]
+      rw [foldRows_getD red _ (min (x2 + 1) s.roi.width - max x1 0).toNat x ?_ (by omega)]
       · rw [List.map_map]
         congr 1
         apply List.map_congr_left
@@ -771,8 +771,29 @@ theorem kymo_pixels_refine (s : Stack) (pages : List Page) (raw : Int → List (
       obtain ⟨row0, h0⟩ := List.length_eq_one_iff.mp (by omega : (pySlice vis (y1 - 0) (y1 + 0 + 1)).length = 1)
       unfold kymoLine
       rw [if_neg (by omega), h0]
-      simp only [List.map_cons, List.map_nil, List.headD_cons, List.sum_cons, List.sum_nil, Int.add_zero]
+      simp only [List.map_cons, List.map_nil, List.headD_cons, foldCol, List.foldl_nil]
       exact hrow row0 (by rw [h0]; simp)
+
+/-- the default of `to_kymo` (`reduce = np.sum`): the sum over the rows of the half window -/
+theorem kymo_pixels_refine (s : Stack) (pages : List Page) (raw : Int → List (List Int)) (H W : Nat)
+    (hraw : ∀ p, (raw p).length = H ∧ ∀ row ∈ raw p, row.length = W) (hr : s.roi.Within H W)
+    (x1 y1 x2 y2 w : Int) (k : Kymo)
+    (hk : s.toKymo pages raw (some (x1, y1, x2, y2)) w = some (.ok k)) :
+    y1 = y2 ∧ 0 ≤ w ∧ 0 ≤ y1 - w ∧ y1 + w + 1 ≤ s.roi.height ∧ max x1 0 < min (x2 + 1) s.roi.width ∧
+    k.image.length = (min (x2 + 1) s.roi.width - max x1 0).toNat ∧
+    ∀ (x t : Nat) (p : Int), (x : Int) < min (x2 + 1) s.roi.width - max x1 0 → s.frames[t]? = some p →
+      (k.image[x]?.bind (·[t]?)) = some (((pySlice (s.roi.apply (raw p)) (y1 - w) (y1 + w + 1)).map
+          fun row => row.getD ((max x1 0).toNat + x) 0).sum) := by
+  have h := kymo_pixels_refine_reduce s pages raw H W hraw hr x1 y1 x2 y2 w .sum k hk
+  simp only [foldCol_sum] at h
+  exact h
+
+/-- `reduce = np.max` / `np.min`: the kymograph value is one of the window's pixels of that column and bounds them all
+    (`foldCol .max` / `.min` is the maximum / minimum of a non-empty list). -/
+theorem reduce_max_min_spec (l : List Int) (hne : l ≠ []) :
+    (foldCol .max l ∈ l ∧ ∀ v ∈ l, v ≤ foldCol .max l) ∧ (foldCol .min l ∈ l ∧ ∀ v ∈ l, foldCol .min l ≤ v) :=
+  ⟨foldCol_max l hne, foldCol_min l hne⟩
+example : foldCol .max [3, 9, 4] = 9 ∧ foldCol .min [3, 9, 4] = 3 ∧ foldCol .sum [3, 9, 4] = 16 := by decide
 
 
 /-- Non-vacuity: stack `[::2]` of 4 pages of 4 × 5 pixels cropped to columns 1–4, tether row 1 from x = 0 to 2, half
@@ -1431,11 +1452,12 @@ example : ∃ pages : List Page, Stack.Good ⟨0, pages.length, 1, ⟨0, (5 : Na
 
 /-- line time, exposure and start of the kymograph are those of the visible frames -/
 theorem kymo_times_refine (s : Stack) (pages : List Page) (raw : Int → List (List Int))
-    (x1 y1 x2 y2 w : Int) (k : Kymo) (hk : s.toKymo pages raw (some (x1, y1, x2, y2)) w = some (.ok k)) :
+    (x1 y1 x2 y2 w : Int) (red : Reduce) (k : Kymo)
+    (hk : s.toKymo pages raw (some (x1, y1, x2, y2)) w red = some (.ok k)) :
     ∃ r, s.ranges pages false false = some r ∧ 2 ≤ r.length ∧
       (∀ i (h : i + 1 < r.length), r[i + 1].1 - r[i].1 = k.lineTime) ∧ (∀ x ∈ r, x.2 - x.1 = k.exposure) ∧
       r.head?.map (·.1) = some k.start ∧ ∀ img ∈ k.image, img.length = r.length := by
-  obtain ⟨r, r', hr, ht, _, _, _, _, _, himg⟩ := toKymo_inv s pages raw x1 y1 x2 y2 w k hk
+  obtain ⟨r, r', hr, ht, _, _, _, _, _, himg⟩ := toKymo_inv s pages raw x1 y1 x2 y2 w red k hk
   obtain ⟨h2, hd, he, hs⟩ := (kymo_times_spec r _ _ _).mp ht
   refine ⟨r, hr, h2, hd, he, hs, ?_⟩
   intro img himg'
